@@ -14,6 +14,7 @@ from __future__ import annotations
 import ast
 
 from .common import *
+from ..engine.loader import class_methods
 
 JB = "xonsh/procs/jobs.py"
 T_ADD = {"append", "appendleft", "insert", "extend", "extendleft"}
@@ -338,35 +339,10 @@ def check(ctx):
         whole_with = len(body) == 1 and isinstance(body[0], ast.With) and any(isinstance(it.context_expr, ast.Call) and call_name(it.context_expr) == "use_main_jobs" for it in body[0].items)
         ctx.ob("R4", f"{JB}:{q}", "runs inside use_main_jobs()", "use_main_jobs" in decos(fn) or whole_with, key=f"{q}|no-use_main_jobs", where=loc(fn))
     ctx.ob("R4", f"{JB}:fg", "fg is @unthreadable (runs on the main thread)", "unthreadable" in decos(mod.func("fg")), key="fg|threadable", where=loc(mod.func("fg")))
-    um = mod.func("use_main_jobs")
-    cfg = CFG(um)
-    swaps = {}
-    for n in cfg.nodes:
-        if n.kind == "stmt" and isinstance(n.ast, ast.Assign):
-            t = dotted(n.ast.targets[0])
-            if t in ("_jobs_thread_local.tasks", "_jobs_thread_local.jobs"):
-                swaps.setdefault(t, []).append(n)
-    udefs = df.all_defs(um)
-    for t, nodes in sorted(swaps.items()):
-        # a restore writes back a local that captured the view (get_tasks()/get_jobs()) before the swap
-        saved = names_bound_to_call(um, lambda nm_: nm_ in ("get_tasks", "get_jobs"), udefs)
-        installs = [n for n in nodes if not isinstance(n.ast.value, ast.Name) or n.ast.value.id not in saved]
-        restores = [n for n in nodes if n not in installs]
-        for n in installs:
-            okr = bool(restores)
-            path = None
-            if okr:
-                okr, p = cfg.must_pass(n, lambda m_: m_ in restores)
-                path = cfg.fmt_path(p) if p else None
-            ctx.ob("R4", f"{JB}:use_main_jobs", f"`{short(n.ast)}` is undone on every exit (normal or exceptional)", okr, key=f"use_main_jobs|{t}|not-restored", where=loc(n.ast), path=path)
-        for n in restores:
-            src = unparse(n.ast.value)
-            d = udefs.get(src, [])
-            want = "get_tasks" if t.endswith("tasks") else "get_jobs"
-            ok = len(d) == 1 and isinstance(d[0].value, ast.Call) and call_name(d[0].value) == want and all(cfg.dominated(i, lambda m_, d=d: m_.ast is d[0].stmt) for i in installs)
-            ctx.ob("R4", f"{JB}:use_main_jobs", f"`{short(n.ast)}` restores the view captured before the swap", ok, key=f"use_main_jobs|{t}|restore-source", where=loc(n.ast))
-    if len(swaps) != 2:
-        raise AnalysisError(f"{JB}:use_main_jobs: expected swaps of both thread-local fields")
+    if isinstance(mod.get("use_main_jobs"), ast.ClassDef):
+        _use_main_jobs_class(ctx, mod)
+    else:
+        _use_main_jobs_generator(ctx, mod)
 
 
     # ---- R5 one view per function
@@ -504,6 +480,103 @@ def _resume_contract(ctx, mod):
     ok = bool(bps) and all(any("[0]" in unparse(e) and ("_continue" in unparse(e) or "bg" in unparse(e)) for e in p_.effects) for p_ in bps)
     ctx.ob("R7", f"{JB}:bg", "after a successful resume bg() marks and continues the job at the front of the order", ok, key="bg|acts-on-other-than-front", where=loc(bgf))
 
+
+
+def _use_main_jobs_generator(ctx, mod):
+    um = mod.func("use_main_jobs")
+    cfg = CFG(um)
+    swaps = {}
+    for n in cfg.nodes:
+        if n.kind == "stmt" and isinstance(n.ast, ast.Assign):
+            t = dotted(n.ast.targets[0])
+            if t in ("_jobs_thread_local.tasks", "_jobs_thread_local.jobs"):
+                swaps.setdefault(t, []).append(n)
+    udefs = df.all_defs(um)
+    for t, nodes in sorted(swaps.items()):
+        # a restore writes back a local that captured the view (get_tasks()/get_jobs()) before the swap
+        saved = names_bound_to_call(um, lambda nm_: nm_ in ("get_tasks", "get_jobs"), udefs)
+        installs = [n for n in nodes if not isinstance(n.ast.value, ast.Name) or n.ast.value.id not in saved]
+        restores = [n for n in nodes if n not in installs]
+        for n in installs:
+            okr = bool(restores)
+            path = None
+            if okr:
+                okr, p = cfg.must_pass(n, lambda m_: m_ in restores)
+                path = cfg.fmt_path(p) if p else None
+            ctx.ob("R4", f"{JB}:use_main_jobs", f"`{short(n.ast)}` is undone on every exit (normal or exceptional)", okr, key=f"use_main_jobs|{t}|not-restored", where=loc(n.ast), path=path)
+        for n in restores:
+            src = unparse(n.ast.value)
+            d = udefs.get(src, [])
+            want = "get_tasks" if t.endswith("tasks") else "get_jobs"
+            ok = len(d) == 1 and isinstance(d[0].value, ast.Call) and call_name(d[0].value) == want and all(cfg.dominated(i, lambda m_, d=d: m_.ast is d[0].stmt) for i in installs)
+            ctx.ob("R4", f"{JB}:use_main_jobs", f"`{short(n.ast)}` restores the view captured before the swap", ok, key=f"use_main_jobs|{t}|restore-source", where=loc(n.ast))
+    if len(swaps) != 2:
+        raise AnalysisError(f"{JB}:use_main_jobs: expected swaps of both thread-local fields")
+
+
+def _use_main_jobs_class(ctx, mod):
+    """use_main_jobs written as a class with __enter__/__exit__ (possibly a ContextDecorator).
+
+    Same obligations as for the generator form - both thread-local fields are swapped, __exit__ restores on
+    every path what __enter__ captured before the swap - plus the one the class form adds: what is captured
+    must belong to *this activation*.  State saved on the instance is per activation only if every entry
+    creates its own instance (`with use_main_jobs():`); an instance used as a decorator (`@use_main_jobs()`)
+    is created once, at definition time, and - unless _recreate_cm hands out a fresh one - shared by every
+    call and every thread, so overlapping activations restore each other's view."""
+    cls = mod.cls("use_main_jobs")
+    ms = class_methods(cls)
+    ent, ext = ms.get("__enter__"), ms.get("__exit__")
+    st = f"{JB}:use_main_jobs"
+    if ent is None or ext is None:
+        raise AnalysisError(f"{st}: a class without __enter__/__exit__")
+    fields = ("_jobs_thread_local.tasks", "_jobs_thread_local.jobs")
+    ecfg, xcfg = CFG(ent), CFG(ext)
+    installs = {t: [n for n in ecfg.nodes if n.kind == "stmt" and isinstance(n.ast, ast.Assign) and dotted(n.ast.targets[0]) == t] for t in fields}
+    restores = {t: [n for n in xcfg.nodes if n.kind == "stmt" and isinstance(n.ast, ast.Assign) and dotted(n.ast.targets[0]) == t] for t in fields}
+    if not all(installs.values()):
+        raise AnalysisError(f"{st}: expected swaps of both thread-local fields in __enter__")
+    selfn = param_name(ent, 0, skip_self=False)
+    xself = param_name(ext, 0, skip_self=False)
+    on_instance = False
+    for t in fields:
+        want = "get_tasks" if t.endswith("tasks") else "get_jobs"
+        rs = restores[t]
+        okr = bool(rs)
+        path = None
+        if okr:
+            okr, p_ = xcfg.must_pass(xcfg.entry, lambda m_, rs=rs: m_ in rs, exits=("exit", "raise"))
+            path = xcfg.fmt_path(p_) if p_ else None
+        for n in installs[t]:
+            ctx.ob("R4", st, f"`{short(n.ast)}` is undone on every exit (normal or exceptional)", okr, key=f"use_main_jobs|{t}|not-restored", where=loc(n.ast), path=path)
+        for n in rs:
+            v = n.ast.value
+            ok = False
+            if isinstance(v, ast.Attribute) and isinstance(v.value, ast.Name) and v.value.id == xself:
+                on_instance = True
+                caps = [m for m in ecfg.nodes if m.kind == "stmt" and isinstance(m.ast, ast.Assign) and isinstance(m.ast.targets[0], ast.Attribute) and m.ast.targets[0].attr == v.attr and unparse(m.ast.targets[0].value) == selfn]
+                ok = len(caps) == 1 and isinstance(caps[0].ast.value, ast.Call) and call_name(caps[0].ast.value) == want and all(ecfg.dominated(i, lambda m_, c=caps[0]: m_ is c) for i in installs[t])
+                # nobody else writes the saved slot
+                others = [a for q_, f_ in mod.functions() if f_ is not ent for a in walk_local(f_) if isinstance(a, ast.Attribute) and a.attr == v.attr and isinstance(a.ctx, (ast.Store, ast.Del))]
+                ok = ok and not others
+            ctx.ob("R4", st, f"`{short(n.ast)}` restores the view captured before the swap", ok, key=f"use_main_jobs|{t}|restore-source", where=loc(n.ast))
+    # per-activation state
+    if on_instance:
+        shared = []
+        for q, fn in mod.functions():
+            for d in fn.decorator_list:
+                if isinstance(d, ast.Call) and call_name(d) == "use_main_jobs":
+                    shared.append(q)
+        # module-level instances (`_main = use_main_jobs()`) are shared as well
+        for a in mod.tree.body:
+            if isinstance(a, ast.Assign) and isinstance(a.value, ast.Call) and call_name(a.value) == "use_main_jobs":
+                shared.append("<module>")
+        fresh = False
+        rc = ms.get("_recreate_cm")
+        if rc is not None:
+            rets = [r for r in walk_local(rc) if isinstance(r, ast.Return) and r.value is not None]
+            fresh = bool(rets) and all(isinstance(r.value, ast.Call) and unparse(r.value.func) in ("use_main_jobs", f"type({param_name(rc, 0, skip_self=False)})", f"{param_name(rc, 0, skip_self=False)}.__class__") for r in rets)
+        ok = not shared or fresh
+        ctx.ob("R4", st, "the view captured at entry is kept per activation: the class saves it on the instance, so no instance may be shared between activations (a decorator instance is created once and serves every call and thread; overlapping activations would restore each other's view)", ok, key="use_main_jobs|saved-view-shared-between-activations", where=loc(cls), detail=f"one instance decorates {sorted(set(shared))}" if not ok else None)
 
 META = {
     "technique": "static analysis: who-may-write + effect summaries of every mutator of the two job structures, CFG pairing (must-pass-through/dominance) and reachability of error returns after mutation",
